@@ -168,7 +168,7 @@ def interrupt_point(cfg: Dict[str, Any]) -> Optional[int]:
     for j, (op, obj) in enumerate(pts):
         if op == 'bar.enter':
             bars += 1
-        if op == 'q.get' and bars >= 3:
+        if op in ('q.get', 'sleep') and bars >= 3:       # queue reads and the pause of every trick
             board = (bars - 1) // 2          # 1 seating barrier, then 2 per board
             per_board.setdefault(board, []).append(j)
     cand = per_board.get(cfg['interrupt_board'])
@@ -523,7 +523,7 @@ def abort_jobs(r, n: int, prefix: str) -> List[tuple]:
     operator interrupt while the main thread is at one of its scheduling
     points inside board k."""
     jobs = []
-    kinds = ['illegal-call', 'garbage', 'not-held', 'wrong-name', 'interrupt', 'garbage-card']
+    kinds = ['illegal-call', 'garbage', 'not-held', 'wrong-name', 'interrupt', 'garbage-card', 'replay']
     for q in range(n):
         nb = 1 + q % 3
         k = 1 + (q // 3) % nb
@@ -552,6 +552,8 @@ def abort_jobs(r, n: int, prefix: str) -> List[tuple]:
                 phase, index = 'auction', 1
             elif kind == 'illegal-call':
                 phase, index = 'auction', 1
+            elif kind == 'replay':
+                phase, index = 'play', r.choice([2, 3, 5, 13])       # the seat's own first card again
             else:
                 phase, index = 'play', r.choice([1, 1, 2, 5, 13])
             fk = 'garbage' if kind == 'garbage-card' else kind
